@@ -5,7 +5,7 @@ rows=[]
 def key(n):
     m=re.match(r'C(\d+)(?:-(\d+))?$', n); return (int(m.group(1)), int(m.group(2) or 1))
 names=sorted((os.path.basename(os.path.dirname(m)) for m in glob.glob('/verif/seeded/*/meta.json')), key=key)
-caught=other=notclaimed=missed=0
+caught=other=notclaimed=missed=beforefix=0
 for name in names:
     j=json.load(open(f'/verif/seeded/{name}/meta.json'))
     c=j.get('confirmed_by_me',{}); r=j.get('check_result',{})
@@ -15,7 +15,7 @@ for name in names:
         sig=(rc.get('signatures') or [''])[0].replace('sig=','').split(' ')[0][:80]
     # the latest recheck against /repo's HEAD decides when there is one; annotations explain a miss
     if rc.get('result')=='caught' or (not rc and r.get('caught_by_quick')): st='caught'; caught+=1
-    elif r.get('caught_by_quick_before_fix'): st='caught (before a later fix removed the path; see meta)'; caught+=1
+    elif r.get('caught_by_quick_before_fix'): st='caught (before a later fix removed the path; see meta)'; beforefix+=1
     elif r.get('caught_by_other_check'): st='caught by '+r['caught_by_other_check']+' (see meta)'; other+=1
     elif r.get('outside_property_as_stated'): st='not claimed (outside the property as stated; see meta)'; notclaimed+=1
     else: st='MISSED (see meta)'; missed+=1
@@ -25,4 +25,4 @@ print('| seeded change | property | what it breaks (needs something specific to 
 print('|---|---|---|---|---|---|')
 for r in rows: print('| '+' | '.join(r)+' |')
 print()
-print(f'{len(rows)} seeded changes: {caught} caught by the quick tier of the property\'s own check, {other} caught by a sibling property\'s check, {notclaimed} not claimed (outside the property as stated), {missed} missed.')
+print(f'{len(rows)} seeded changes: {caught} caught by the quick tier of the property\'s own check on the final tree, {beforefix} caught when they arrived but since neutralised by a fix: commit (the demo passes with the patch on HEAD), {other} caught by a sibling property\'s check, {notclaimed} not claimed (outside the property as stated), {missed} missed.')
